@@ -12,6 +12,16 @@ from . import common as cm
 from . import c17_gen as G
 from .c17_impl import impl_case          # noqa: F401  (entry point of the workers)
 
+ANCHORS = ["pyflyby._saveframe:_validate_frames", "pyflyby._saveframe:_get_all_matching_frames",
+           "pyflyby._saveframe:_get_frames_to_save", "pyflyby._saveframe:_get_all_frames_from_exception_obj",
+           "pyflyby._saveframe:_is_variable_name_valid", "pyflyby._saveframe:_validate_variables",
+           "pyflyby._saveframe:_validate_saveframe_arguments", "pyflyby._saveframe:_get_frame_local_variables_data",
+           "pyflyby._saveframe:_get_frame_metadata", "pyflyby._saveframe:_open_file",
+           "pyflyby._saveframe:_get_exception_info",
+           "pyflyby._saveframe:_save_frames_and_exception_info_to_file", "pyflyby._saveframe:saveframe",
+           "pyflyby._saveframe_reader:SaveframeReader.variables", "pyflyby._saveframe_reader:SaveframeReader.get_metadata",
+           "pyflyby._saveframe_reader:SaveframeReader.get_variables"]
+
 REQ = ["Saveframe.Select", "Saveframe.Vars", "Saveframe.File", "Saveframe.Save", "Saveframe.Reader", "Saveframe.Wire"]
 
 FIELD_CTOR = {"frame_index": "(MFrame FIndex)", "filename": "(MFrame FFilename)", "lineno": "(MFrame FLineno)",
@@ -103,22 +113,25 @@ def model_expr(c, im):
     cur = "None" if im["cur"] is None else "(Some fr%d)" % im["cur"]
     excs = cm.clist([cm.cstr(x) for x in im["live_exc"][:4]])
     qs = cm.clist([c_query(q) for q in modelled_queries(c)])
-    return "%srun_save %s %s %s %s %s %s %s %s %s %s %s %s true %s %s %s" % (
-        lets, cm.cbool(bool(c.get("script"))), cm.cbool(N2_REPAIRED), c_frames_arg(im["eff"]["frames"]), c_vars_arg(im["eff"]["variables"]),
+    return "%srun_save %s %s %s %s %s %s %s %s %s %s %s %s %s true %s %s %s" % (
+        lets, cm.cbool(bool(c.get("script"))), cm.cbool(N2_REPAIRED), cm.cbool(N1_REPAIRED), c_frames_arg(im["eff"]["frames"]), c_vars_arg(im["eff"]["variables"]),
         c_vars_arg(im["eff"]["exclude"]), cur, exn, rxt, validt, unpk, cm.cN(c["umask"]),
         cm.copt(c.get("pre"), cm.cN), cm.cbool(im["dump_ok"]), excs, qs)
 
 
-def _n2_repaired():
-    """the model variant of saveframe's debugger default follows the status of C17-N2 in the known findings:
-    open = the file name is used as a regex (code as it is), fixed:<commit> = re.escape (fixes/C17N2-*.diff)"""
+def _repaired(fid):
+    """the model variant follows the status of the finding in the known findings: open = the code as it
+    was, fixed:<commit> = the code repaired by fixes/<fid>-*.diff.
+    C17-N2: debugger default uses re.escape(co_filename).  C17-N1: an unpicklable exception object is
+    replaced by a placeholder and the mapping is serialized before the file is opened."""
     for e in cm.load_known("C17"):
-        if e.get("id") == "C17-N2":
+        if e.get("id") == fid:
             return str(e.get("status", "open")).startswith("fixed")
     return False
 
 
-N2_REPAIRED = _n2_repaired()
+N2_REPAIRED = _repaired("C17-N2")
+N1_REPAIRED = _repaired("C17-N1")
 
 
 def dedup(rx):
@@ -141,6 +154,7 @@ def impl_view(c, im):
         # the dump of the whole mapping failed after the file was opened
         return dict(fs, result="ok", outcome="body_failed")
     out = dict(fs, result="ok", outcome="saved")
+    out["exc_object"] = im["saved"]["exc"]["object_kind"]
     out["frames"] = [{"index": e["key"], "file": e["file"], "line": e["line"], "func": e["func"], "qual": e["qual"],
                       "module": e["module"], "code": e["code"], "ident": e["ident"], "vars": e["vars"]}
                      for e in im["saved"]["frames"]]
@@ -158,6 +172,7 @@ def model_view(mv):
     if mv.get("outcome") == "body_failed":
         mv.pop("frames", None)
         mv.pop("queries", None)
+        mv.pop("exc_object", None)
     return mv
 
 
@@ -318,8 +333,12 @@ def oracle(c, im):
     # exception fields
     ex = im["saved"]["exc"]
     le = im["live_exc"]
+    if im["dump_ok"]:
+        obj_ok = ex["has_object"] and ex["object_args"] == le[4]
+    else:
+        obj_ok = ex["object_kind"] == "placeholder"      # an exception object that cannot be pickled cannot be in the file
     if [ex["exception_string"], ex["exception_full_string"], ex["exception_class_name"], ex["exception_class_qualname"]] != le[:4] \
-            or not ex["has_object"] or ex["object_args"] != le[4] or ex["traceback_type"] not in ("list", "str"):
+            or not obj_ok or ex["traceback_type"] not in ("list", "str"):
         bad.append(("keys_are_distances", "exception fields %r, live %r" % (ex, le)))
     # reader
     bad += oracle_reader(c, im)
@@ -503,7 +522,8 @@ def check_cases(ctx, cases, impl, model):
 
 
 def run(ctx):
-    n = 600 if ctx.quick else 30000
+    cm.check_anchors(ctx, ANCHORS)
+    n = (600 if ctx.quick else 20000) * ctx.scale
     ctx.coverage["rule"] = (
         "cases from one seeded PRNG (case i replays from (seed, i)): a generated multi-module program (functions, methods, closures, "
         "recursion, a shared trampoline, try/except re-raising with `from e` / implicit context / `from None` / a handler that calls a "
